@@ -241,7 +241,8 @@ def forward_paths(fn, init, transfer, edge=None, cap=48, start=None):
     (one per class of paths); `transfer(facts, node)` and `edge(facts, blk, succ, cond, truth)`
     work on one fact-set.  Joins are unions, collapsed to the common facts above `cap`."""
     def T(S, n):
-        return frozenset(transfer(s, n) for s in S)
+        # a transfer function may return None: the path class ends here (a call that does not return)
+        return frozenset(r for r in (transfer(s, n) for s in S) if r is not None)
 
     def E(S, blk, succ, cond, truth):
         if edge is None:
@@ -263,10 +264,20 @@ def forward_paths(fn, init, transfer, edge=None, cap=48, start=None):
     return IN, OUT, T
 
 
-def condition_facts(fn, cap=48):
+DEAD = ("dead", "", "", frozenset(), None, None)
+
+
+def live(S):
+    """the path classes of a state that have not passed a call the caller declared non-returning"""
+    return [ps for ps in S if DEAD not in ps]
+
+
+def condition_facts(fn, cap=48, dead_calls=None):
     """Path-sensitive facts from branch conditions: each fact-set holds tuples
     (op, lhs_node_text, rhs_text_or_'', frozenset(variable names), lhs_node, rhs_node) known true on that class
-    of paths; a fact dies when one of its variables is assigned.  Returns (IN, T) for states_at."""
+    of paths; a fact dies when one of its variables is assigned.  Returns (IN, T) for states_at.
+    `dead_calls(name)`: calls to these functions do not return although the CFG does not know it (a wrapper around
+    longjmp without the attribute); the path class ends there."""
     from .util import strip_casts
 
     def toks(x):
@@ -274,6 +285,8 @@ def condition_facts(fn, cap=48):
 
     def transfer(st, x):
         tgt = None
+        if dead_calls is not None and x.k == "call" and x.callee and dead_calls(x.callee):
+            return None
         if x.k == "asg" and x.kids[0].k == "ref":
             tgt = x.kids[0].name
         elif x.k == "vardecl":
